@@ -170,6 +170,51 @@ func leqIdeal(v ssa.Value) bool {
 	if b, ok := v.(*ssa.BinOp); ok && b.Op == token.MUL {
 		return (leqIdeal(b.X) && unitFactor(b.Y)) || (leqIdeal(b.Y) && unitFactor(b.X))
 	}
+	if b, ok := v.(*ssa.BinOp); ok && b.Op == token.QUO {
+		if f, okc := ir.ConstFloat(b.Y); okc && f >= 1 {
+			return leqIdeal(b.X)
+		}
+	}
+	return false
+}
+
+// leqCurrent: expression is ≤ the current refillRate by shape, given floor ≤ refillRate (inductive hypothesis).
+func leqCurrent(v ssa.Value) bool {
+	if isLoadOf(v, "refillRate") || isFloorExpr(v) {
+		return true
+	}
+	if c := builtinCall(v, "min"); c != nil {
+		for _, a := range c.Call.Args {
+			if leqCurrent(a) {
+				return true
+			}
+		}
+		return false
+	}
+	if c := builtinCall(v, "max"); c != nil {
+		for _, a := range c.Call.Args {
+			if !leqCurrent(a) {
+				return false
+			}
+		}
+		return true
+	}
+	if c, ok := v.(*ssa.Call); ok && ir.IsCallTo(c, "math.Min") {
+		return leqCurrent(c.Call.Args[0]) || leqCurrent(c.Call.Args[1])
+	}
+	if c, ok := v.(*ssa.Call); ok && ir.IsCallTo(c, "math.Max") {
+		return leqCurrent(c.Call.Args[0]) && leqCurrent(c.Call.Args[1])
+	}
+	if b, ok := v.(*ssa.BinOp); ok {
+		switch b.Op {
+		case token.MUL:
+			return (leqCurrent(b.X) && unitFactor(b.Y)) || (leqCurrent(b.Y) && unitFactor(b.X))
+		case token.QUO:
+			if f, okc := ir.ConstFloat(b.Y); okc && f >= 1 {
+				return leqCurrent(b.X)
+			}
+		}
+	}
 	return false
 }
 
@@ -258,6 +303,11 @@ func ruleTBRate(r *core.Reporter) {
 			up, low := leqIdeal(v), geqFloor(v)
 			if up && low {
 				r.Held(key+"/cut", 1, "max(refillRate·f, min(0.5, idealRate)): stays within [min(0.5,ideal), ideal]")
+				if leqCurrent(v) {
+					r.Held(key+"/cut-monotone", 1, "the new rate is max(current·f, floor) with f ≤ 1: a failure never raises the rate")
+				} else {
+					r.Violated(key+"/cut-monotone", p.InstrPos(st), "the rate after a failure (%s) is not derived from the current rate: after a partial recovery (streak forgotten, rate still reduced) a 5xx RAISES the refill rate", ir.Path(v))
+				}
 			} else if !up {
 				r.Violated(key+"/cut", p.InstrPos(st), "after a 5xx the refill rate can exceed the configured rate: the floor operand of max() is not bounded by idealRate (a configured rate below 0.5/s is raised to 0.5/s)")
 			} else {
